@@ -393,13 +393,25 @@ def guarded(f, *a, seconds=30):
         signal.signal(signal.SIGALRM, old)
 
 
+def _with_chunk_index(fn, a):
+    # the generator mode (default / axis / tiny lattice) of a chunk is a function of its index, so that every run of every
+    # check has chunks in each mode (harness/gen.py reads gen.CHUNK_INDEX)
+    from . import gen
+    gen.CHUNK_INDEX = a[2] if isinstance(a, tuple) and len(a) == 3 and isinstance(a[2], int) else None
+    try:
+        return fn(a)
+    finally:
+        gen.CHUNK_INDEX = None
+
+
 def pmap(fn, args_list, procs=None):
-    import multiprocessing as mp
+    import multiprocessing as mp, functools
     procs = procs or min(16, os.cpu_count() or 4, max(1, len(args_list)))
+    f = functools.partial(_with_chunk_index, fn)
     if procs <= 1 or len(args_list) <= 1:
-        return [fn(a) for a in args_list]
+        return [f(a) for a in args_list]
     with mp.get_context('fork').Pool(procs) as pool:
-        return pool.map(fn, args_list, chunksize=1)
+        return pool.map(f, args_list, chunksize=1)
 
 
 def chunks(ctx, total, per=250):
